@@ -250,6 +250,7 @@ class Report:
         self.known = [k for k in load_known() if k["property"] == pid and k.get("status") == "known"]
         self.violations = []      # (key, what, path)
         self.known_hits = {}      # key -> (what, count)
+        self.known_keys = {}      # registered key -> concrete keys that matched it
         self.cov = {}
         self.assumptions = []
         self.samples = []
@@ -262,6 +263,7 @@ class Report:
             if k["key"] == key or (k.get("key_re") and re.fullmatch(k["key_re"], key)):
                 w, n = self.known_hits.get(k["key"], (k["what"], 0))
                 self.known_hits[k["key"]] = (w, n + 1)
+                self.known_keys.setdefault(k["key"], set()).add(key)
                 return False
         h = hashlib.sha1((key + json.dumps(replay, sort_keys=True, default=str)).encode()).hexdigest()[:12]
         path = os.path.join(REPLAYS, "%s-%s.json" % (self.pid, h))
@@ -284,6 +286,7 @@ class Report:
             "coverage": cov, "assumptions": self.assumptions,
             "wall_s": round(time.time() - self.t0, 1), "violations": len(self.violations),
             "known_findings_hit": {k: v[1] for k, v in self.known_hits.items()},
+            "known_findings_keys": {k: sorted(v)[:60] for k, v in self.known_keys.items()},
         }
         with open(os.path.join(EVIDENCE, self.pid + ".json"), "w") as f:
             json.dump(ev, f, indent=1, default=str)
@@ -294,7 +297,7 @@ class Report:
             if key in seen:
                 continue
             seen.add(key)
-            if len(seen) > 25:
+            if len(seen) > 25 and not os.environ.get("VERIF_ALLKEYS"):
                 break
             print("VIOLATION property=%s replay=%s  # %s: %s" % (self.pid, path, key, what[:300]))
         print("%s %s: %s; %d violation(s) in %d class(es), %d known finding class(es); %.0fs" % (
